@@ -7,11 +7,14 @@ package main
 import (
 	"fmt"
 	"sort"
+	"strings"
 )
 
 type Base struct {
-	id    int
-	merge []baseEdge
+	id      int
+	merge   []baseEdge
+	prev    *State // state before the havoc that created this base
+	private []Term // references private to the function at that time (unreachable for callees)
 }
 
 type baseEdge struct {
@@ -74,6 +77,14 @@ func (c *FuncCtx) initVal(k string, sort Sort, b *Base) Term {
 	var t Term
 	if len(b.merge) == 0 {
 		t = c.sc.fresh("h_"+k, sort)
+		// objects that never left the function cannot have been changed by whatever caused the havoc
+		if b.prev != nil && len(b.private) > 0 && strings.HasPrefix(string(sort), "(Array Ref ") {
+			inner := Sort(strings.TrimSuffix(strings.TrimPrefix(string(sort), "(Array Ref "), ")"))
+			old := c.get(b.prev, k)
+			for _, r := range b.private {
+				c.sc.assume(eq(sel(t, r, inner), sel(old, r, inner)))
+			}
+		}
 	} else {
 		t = c.initVal(k, sort, b.merge[len(b.merge)-1].b)
 		for i := len(b.merge) - 2; i >= 0; i-- {
@@ -97,12 +108,20 @@ func (c *FuncCtx) havocAll(s *State) {
 		e := c.get(s, "epoch")
 		oldEpoch = &e
 	}
+	var prev *State
+	if len(c.privateRefs) > 0 {
+		prev = s.clone()
+	}
 	for k := range s.m {
 		if ki := c.keys[k]; !ki.local {
 			delete(s.m, k)
 		}
 	}
 	s.base = c.newBase()
+	if prev != nil {
+		s.base.prev = prev
+		s.base.private = append([]Term{}, c.privateRefs...)
+	}
 	// the epoch is registered lazily; make it strictly increasing across havocs when in use,
 	// and remember the havoc so that an epoch registered later is still fresh per base.
 	if oldEpoch != nil {
